@@ -180,9 +180,10 @@ def parseLiteralFails (scalar : String) (v : Value) : Option Bool :=
       | "ID", .int _ => false
       | _, _ => true)
   else
-    -- custom scalar built from SDL: `parse_literal = node.value`; nodes without `.value` are a TypeError
+    -- custom scalar built from SDL: `parse_literal = _untyped_literal` (/repo a2b8a10): every literal is accepted -
+    -- scalar and enum literals by their `.value`, `null`, list and object literals converted (JSON-like scalars)
     match v with
-    | .obj _ | .list _ | .null | .var _ => some true
+    | .var _ => some true
     | _ => some false
 
 /-- `_check_scalar(node)`: errors added (0/1), or `none` = crash -/
